@@ -300,6 +300,7 @@ impl Check for C04 {
                         4 => (86400 * NS - t.rem_euclid(86400 * NS)) + NS,
                         _ => 366 * 86400 * NS,
                     };
+                    let dt = crate::gen::clocks::clamp_instant(t + dt) - t;
                     let at_call = 1 + r.below(3) as u32;
                     if !others.is_empty() && r.chance(1, 2) {
                         let o = *r.pick(&others);
